@@ -674,7 +674,7 @@ pub fn run(args: &Args) {
     let kind_of = |s: &Src| -> usize { let b = match s { Src::Sub { inner, .. } => &**inner, x => x }; match b { Src::Mut { .. } => 0, Src::Enum { .. } => 1, Src::Rand { .. } => 2, _ => 3 } };
     // long inputs go to Coq only for models that run in linear time (the sequence decoders re-measure the
     // remaining slice in every iteration, the PA-Zip model appends to its observation list)
-    let coq_long_ok = |m: u32| matches!(m, 1 | 3 | 10..=26 | 50 | 51 | 52 | 80 | 81 | 90 | 91 | 100 | 103 | 82 | 140 | 142 | 150..=153);
+    let coq_long_ok = |m: u32| matches!(m, 1 | 3 | 10..=26 | 50 | 51 | 52 | 53 | 54 | 80 | 81 | 90 | 91 | 100 | 103 | 82 | 140 | 142 | 150..=153);
     let is_long = |s: &Src| matches!(match s { Src::Sub { inner, .. } => &**inner, x => x }, Src::Long { .. });
     let modelled = |s: &Src| s.parser().map(|p| ps[p].model != 0 && (!is_long(s) || coq_long_ok(ps[p].model))).unwrap_or(false);
     let mut kind_total = [0usize; 4];
